@@ -2,6 +2,7 @@ package shimagent
 
 //vsym:pkg github.com/theparanoids/ysshra/agent/shimagent
 //vsym:include shim/world.go
+//vsym:include shim/peek.go || shim/peek_bb.go
 //vsym:entry H10_new
 //vsym:model golang.org/x/crypto/ssh/agent.NewClient m10nNewClient
 //vsym:model github.com/theparanoids/ysshra/agent/ssh/connection.GetConn m10GetConn
